@@ -847,7 +847,7 @@ func runMuxScenario(t *testing.T, sc *MuxScenario, tape *core.Tape) (mr *muxRun)
 		defer func() {
 			larking.VerifYield, larking.VerifLockGate, larking.VerifLocked, larking.VerifUnlocked = nil, nil, nil, nil
 		}()
-		world := &World{sim: sim, reqs: map[int]*reqState{}, tag: "local"}
+		world := &World{sim: sim, reqs: map[int]*reqState{}, tag: "local", serverMD: newServerMD()}
 		mr.world = world
 		mux, err := larking.NewMux(muxOptions(sc, world)...)
 		if err != nil {
@@ -1067,6 +1067,33 @@ func (mr *muxRun) globalInvariants(prop string) *Violation {
 	}
 	if mr.sim == nil {
 		return violationf(prop, "harness-no-simulation", "harness", "the bubble did not start: %s", mr.bubblePanic)
+	}
+	// metadata the handlers own and share stays as they made it; a response
+	// header set by a handler only ever carries that handler's own value
+	worlds := []*World{mr.world}
+	for _, b := range mr.backends {
+		worlds = append(worlds, b.world)
+	}
+	for _, w := range worlds {
+		if w != nil && !w.sharedMDIntact() {
+			return violationf(prop, "handler-owned-metadata-modified", "SetHeader", "the metadata.MD that the handlers of %q pass to SetHeader (and keep) was changed: now %v", w.tag, w.serverMD)
+		}
+	}
+	for _, rs := range mr.reqs {
+		if rs.spec.TwinOf != 0 || rs.q == nil {
+			continue
+		}
+		own := strconv.Itoa(rs.spec.ID)
+		resp := rs.q.response()
+		for _, hdr := range []http.Header{resp.Header, resp.Trailer} {
+			for _, k := range []string{"X-Sim-Hdr", "X-Sim-Trl", "Grpc-Trailer-X-Sim-Trl"} {
+				for _, v := range hdr[k] {
+					if v != own {
+						return violationf(prop, "foreign-metadata-in-response", mr.contextKey(rs), "request %d: response metadata %s carries %q - set by the handler of another request", rs.spec.ID, k, hdr[k])
+					}
+				}
+			}
+		}
 	}
 	if san := mr.sim.Sanity(); len(san) > 0 {
 		return violationf(prop, "concurrent-io-on-one-stream", "sim-sanity", "%s; parked: %v", strings.Join(san, "; "), mr.parked)
